@@ -27,6 +27,8 @@ struct Log {
     eof_calls: usize,
     flush_done: usize,
     read_bytes: Vec<u8>,
+    /// virtual instant (ms) of the last write that accepted at least one byte, plus one (0 = never)
+    last_write: u128,
 }
 
 struct Src {
@@ -97,7 +99,12 @@ impl VSink for Snk {
         }
         let n = (k as usize).min(data.len());
         let acc = data.split_to(n);
-        self.log.lock().unwrap().delivered.extend_from_slice(&acc);
+        let mut l = self.log.lock().unwrap();
+        if n > 0 {
+            l.last_write = self.t0.elapsed().as_millis() + 1;
+        }
+        l.delivered.extend_from_slice(&acc);
+        drop(l);
         Ok(data)
     }
 
@@ -197,7 +204,8 @@ pub fn run(toks: Vec<Tok>) -> Vec<Tok> {
             Ok(Err(_)) => 2,
         };
         let mut out = vec![vec![code, if code == 3 { 0 } else { end }]];
-        for l in logs {
+        let last_writes: Vec<u128> = logs.iter().map(|l| l.lock().unwrap().last_write).collect();
+        for l in &logs {
             let l = l.lock().unwrap();
             let in_order = l.read_bytes.starts_with(&l.delivered) as u128;
             out.push(vec![
@@ -210,6 +218,8 @@ pub fn run(toks: Vec<Tok>) -> Vec<Tok> {
                 l.read_bytes.len() as u128,
             ]);
         }
+        // not part of the model's output: for the direct 'no close while bytes moved within T' oracle
+        out.push(last_writes);
         out
     })
 }
